@@ -102,16 +102,16 @@ Proof.
     apply sh_op; cbn [s_info s_acct opnode_target]; auto.
 Qed.
 
-Lemma fee_step_cur : forall s src, cur (fst (fee_step s src)) = cur s /\ trie (fst (fee_step s src)) = trie s /\
-  pend (fst (fee_step s src)) = pend s /\ esc (fst (fee_step s src)) = esc s /\ burned (fst (fee_step s src)) = burned s.
-Proof. intros. unfold fee_step. destruct (bal s src <? tx_fee); cbn; auto. Qed.
+Lemma fee_step_cur : forall e s src, cur (fst (fee_step e s src)) = cur s /\ trie (fst (fee_step e s src)) = trie s /\
+  pend (fst (fee_step e s src)) = pend s /\ esc (fst (fee_step e s src)) = esc s /\ burned (fst (fee_step e s src)) = burned s.
+Proof. intros. unfold fee_step. destruct (bal s src <? tx_fee e); cbn; auto. Qed.
 
 (* one loop iteration: same shapes, trie untouched *)
 Lemma run_tx_shape : forall e h t s, let s' := fst (run_tx e h t s) in
   trie s' = trie s /\ shape e (cur s) (trie s) t (cur s').
 Proof.
-  intros e h t s. unfold run_tx. destruct (fee_step s (tx_src t)) as [s1 ok] eqn:Ef.
-  pose proof (fee_step_cur s (tx_src t)) as (Hc & Ht & _). rewrite Ef in Hc, Ht. cbn [fst] in Hc, Ht.
+  intros e h t s. unfold run_tx. destruct (fee_step e s (tx_src t)) as [s1 ok] eqn:Ef.
+  pose proof (fee_step_cur e s (tx_src t)) as (Hc & Ht & _). rewrite Ef in Hc, Ht. cbn [fst] in Hc, Ht.
   destruct ok; [|cbn; split; [reflexivity|constructor]].
   destruct (execute e h t s1) as [s2 r] eqn:Ee.
   apply execute_shape in Ee. destruct Ee as (Ht2 & _ & Hsh). rewrite Hc, Ht in Hsh.
@@ -335,7 +335,7 @@ Qed.
 
 (* ---- the unguarded statement is false: two MinerApply naming one account in one block ---- *)
 Definition rich : bals := fun a => if N.eqb a 2 then tok 10000 else 0.
-Definition env2 : env := {| ids := [1%N; 2%N]; contract := fun _ => false |}.
+Definition env2 : env := {| ids := [1%N; 2%N]; contract := fun _ => false; gates := all_gates |}.
 Definition two_applies : list tx :=
   [TApply 2 true 0 1 400 0 true; TApply 2 true 0 2 400 2 true].
 
